@@ -202,6 +202,36 @@ def uniform_check(st, values):
         st.violation("uniform:%d" % n, "select_uniform on %s: %s" % (values, bad), {"kind": "uniform", "values": list(values), "weights": None})
 
 
+def coincidence_work(item):
+    """concrete integer weights on lists with repeated elements: the conditional probabilities w_i/(w_i+...+w_n) of two
+    positions can coincide exactly, a measure-zero set of weight vectors that the symbolic run never visits"""
+    values, weights = item
+    st = Stats()
+    ws = dict(("w%d" % (i + 1), Fraction(w)) for i, w in enumerate(weights))
+    okey = "coincide:%s:%s" % (",".join(values), ",".join(str(w) for w in weights))
+    rep = replay_one("sw5", values, ws)
+    st.ob("refuted" if rep else "proved", key=okey)
+    if rep:
+        st.violation("sw5:distribution", "sw5 %s with weights %s: %s" % (values, list(weights), rep),
+                     {"kind": "sw5", "values": list(values), "weights": dict((k, str(x)) for k, x in ws.items())})
+    return st
+
+
+def coincidence_cases(tier, seed):
+    rng = random.Random("c32/%s" % seed)
+    out = []
+    for n in (3, 4):
+        for vals in itertools.product(ATOMS[:3], repeat=n):
+            if len(set(vals)) == n:
+                continue
+            for ws in itertools.product(range(1, 5), repeat=n):
+                conds = [Fraction(ws[i], sum(ws[i:])) for i in range(n - 1)]
+                if any(conds[i] == conds[j] and vals[i] == vals[j] for i in range(n - 1) for j in range(i + 1, n - 1)):
+                    out.append((list(vals), list(ws)))
+    rng.shuffle(out)
+    return out[:60] if tier == "quick" else out
+
+
 def cases(tier):
     out = []
     maxn = 4 if tier == "quick" else 5
@@ -232,11 +262,18 @@ def main(tier, seed):
     run.functions = FUNCS
     run.assumptions = ["lists of length 1-%d, including equal elements; list shapes enumerated" % (4 if tier == "quick" else 5),
                        "weights symbolic and positive; floats as reals",
+                       "lists with repeated elements and small integer weights whose conditional selection probabilities coincide "
+                       "exactly (the ground choice atoms of two positions can then be identical) are run concretely against exact "
+                       "rationals (enumerated, not solver-decided: a measure-zero set of weight vectors)",
                        "select_uniform/4 computes 1/Len in floating point before the weights reach the semiring: checked concretely "
                        "with tolerance 1e-9 (not solver-decided)"]
     items = cases(tier)
     run.bounds = {"cases": len(items), "max_length": 4 if tier == "quick" else 5}
     for st in pmap(work, items, item_timeout=300):
+        run.merge(st)
+    cc = coincidence_cases(tier, seed)
+    run.bounds["coincidence_cases"] = len(cc)
+    for st in pmap(coincidence_work, cc, item_timeout=120):
         run.merge(st)
     st = Stats()
     for n in range(1, 6):
